@@ -353,6 +353,15 @@ struct Pool
         if (name == "era")
         {
             std::size_t pos = std::stoul(t[2]);
+            if (pos == static_cast<std::size_t>(-1) && v.capacity() > 0)
+            {
+                // the position just before the first slot: as an index it is not below size either
+                res = guarded(fuel, [&] {
+                    v.erase(v.begin() - 1);
+                    return std::string("ok");
+                });
+                return true;
+            }
             if (pos > v.capacity())
             {
                 res = "raised";
@@ -593,8 +602,57 @@ static std::string run_case(const std::string& ops)
     return out;
 }
 
+// Elements built from constructor arguments, for element types that also have an initializer-list constructor:
+// emplace_back(n, v) / emplace(pos, n, v) build T(n, v) - n copies of v - like every standard container does.
+//   <n>:<v>:<b|p>:<s|v>
+static std::string run_il(const std::string& spec)
+{
+    auto t = nv::splitc(spec, ':');
+    std::size_t n = std::stoul(t.at(0));
+    int v = std::stoi(t.at(1));
+    bool back = t.at(2) == "b";
+    std::string r;
+    auto show = [&](auto& elem) {
+        std::string e;
+        for (auto x : elem)
+            e += (e.empty() ? "" : ".") + std::to_string(static_cast<int>(x));
+        return e;
+    };
+    if (t.at(3) == "s")
+    {
+        nitro::lang::fixed_vector<std::string> fv(3);
+        fv.emplace_back("first");
+        if (back)
+            fv.emplace_back(n, static_cast<char>(v));
+        else
+            fv.emplace(fv.begin(), n, static_cast<char>(v));
+        if (fv.size() != 2)
+            return "size " + std::to_string(fv.size());
+        r = show(back ? fv[1] : fv[0]);
+        if ((back ? fv[0] : fv[1]) != "first")
+            return "other-element-changed";
+    }
+    else
+    {
+        nitro::lang::fixed_vector<std::vector<int>> fv(3);
+        fv.emplace_back(1, 5);
+        if (back)
+            fv.emplace_back(n, v);
+        else
+            fv.emplace(fv.begin(), n, v);
+        if (fv.size() != 2)
+            return "size " + std::to_string(fv.size());
+        r = show(back ? fv[1] : fv[0]);
+        if ((back ? fv[0] : fv[1]) != std::vector<int>{ 5 })
+            return "other-element-changed";
+    }
+    return "ok " + r;
+}
+
 static std::string handle(const std::vector<std::string>& f)
 {
+    if (f.at(1) == "il")
+        return run_il(f.at(2));
     if (f.at(1) == "m")
         return run_case<MElem>(f.at(2));
     return run_case<Elem>(f.at(2));
